@@ -511,7 +511,7 @@ public:
 #else
 		if (rhs.iszero()) std::cerr << "fixpnt_divide_by_zero" << std::endl;
 #endif
-		if constexpr (arithmetic == Modulo) {
+		{
 			bool positive = (ispos() && rhs.ispos()) || (isneg() && rhs.isneg());  // XNOR
 
 			// a fixpnt<nbits,rbits> division scale to a fixpnt<2 * nbits + 1, nbits - 1> 
@@ -534,10 +534,17 @@ public:
 			quotient >>= roundingBits;
 			if (roundUp) ++quotient;
 //			std::cout << "quotient : " << to_binary(quotient, true) << " : " << quotient << (roundUp ? " rounded up": " truncated") << '\n';
+			if constexpr (arithmetic == Saturate) {
+				// clamp the magnitude of the rounded quotient to [maxneg, maxpos]
+				fixpnt<nbits, rbits, arithmetic, bt> maxpos(SpecificValue::maxpos), maxneg(SpecificValue::maxneg);
+				blockbinary<accumulatorSize, bt> maxMagnitude = maxpos.bits();
+				if (!positive) ++maxMagnitude; // |maxneg| == maxpos + 1 ULP
+				if (quotient >= maxMagnitude) {
+					_block = (positive ? maxpos.bits() : maxneg.bits());
+					return *this;
+				}
+			}
 			_block = (positive ? quotient : quotient.twosComplement());
-		}
-		else {
-			std::cerr << "TBD: Saturate divide not implemented yet\n";
 		}
 		return *this;
 	}
